@@ -112,7 +112,7 @@ fn module_variables(mut args: ArgumentResult, visitor: &mut Visitor) -> SassResu
     ))
 }
 
-fn calc_args(mut args: ArgumentResult, visitor: &mut Visitor) -> SassResult<Value> {
+fn calc_args(mut args: ArgumentResult, _visitor: &mut Visitor) -> SassResult<Value> {
     args.max_args(1)?;
 
     let calc = match args.get_err(0, "calc")? {
@@ -137,7 +137,7 @@ fn calc_args(mut args: ArgumentResult, visitor: &mut Visitor) -> SassResult<Valu
                     Value::String(s, QuoteKind::None)
                 }
                 CalculationArg::Operation { .. } => Value::String(
-                    serialize_calculation_arg(&arg, visitor.options, args.span())?,
+                    serialize_calculation_arg(&arg, &Options::default(), args.span())?,
                     QuoteKind::None,
                 ),
             })
